@@ -44,6 +44,11 @@ def seeds():
         def fmt(p):
             v = res.get(p) or {}
             return ', '.join(sorted(set(v.get('rules', []))))
+        if meta.get('status') == 'retired':
+            neutral += 1
+            alarms = sorted(p for p, v in res.items() if v.get('exit') == 1)
+            out.append('| {} | {} | retired: its demonstration no longer fails on the repaired tree (see meta.json); still reported by {} | |'.format(sid, summary(sd), ', '.join(alarms) or 'nothing'))
+            continue
         if meta.get('status') == 'neutralised':
             neutral += 1
             alarms = [p for p, v in res.items() if v.get('exit') == 1]
